@@ -614,10 +614,7 @@ func (h *hist) opSub(a *entity, circ bool) {
 			to = from
 		case 2: // extended
 			from = r.Intn(2 * n)
-			to = from + 1 + r.Intn(n)
-			if to > 2*n {
-				to = 2 * n
-			}
+			to = from + 1 + r.Intn(n) // may end in a third copy: positions are modulo n
 		default:
 			from = r.Intn(n)
 			to = from + 1 + r.Intn(n-from)
